@@ -26,6 +26,8 @@ type Module struct {
 	Asserts bool
 	// ModuleBuildErr is set when the module failed to build for reasons outside any case.
 	ModuleBuildErr string
+	// AltBin maps the case feature "cli" to an alternative CLI binary (e.g. a customised goverter main).
+	AltBin map[string]string
 	// GenTimeout is the watchdog of one CLI run.
 	GenTimeout time.Duration
 }
@@ -204,7 +206,11 @@ func (m *Module) Generate(bin string) {
 		if cr.Case.RawArgs != nil {
 			args = cr.Case.RawArgs
 		}
-		cr.Gen = RunCmd(bin, args, RunOpts{Dir: cr.Dir, Env: m.Env.GoEnv(), Timeout: m.genTimeout()})
+		useBin := bin
+		if alt, ok := m.AltBin[cr.Case.Features["cli"]]; ok && alt != "" {
+			useBin = alt
+		}
+		cr.Gen = RunCmd(useBin, args, RunOpts{Dir: cr.Dir, Env: m.Env.GoEnv(), Timeout: m.genTimeout()})
 		after := snapshot(cr.Dir)
 		cr.Written = map[string][]byte{}
 		for p, b := range after {
